@@ -23,11 +23,14 @@ EXTENDS Integers, Sequences, FiniteSets, TLC, SequencesExt
 
 (* values: the payload is always a sequence of strings, so that any two values can be compared
    (number: its decimal text, flag: "true"/"false", list: the elements, map: key, value, key, value ...) *)
-S(s) == [t |-> "str", v |-> <<s>>]
-N(n) == [t |-> "num", v |-> <<ToString(n)>>]
-B(b) == [t |-> "bool", v |-> <<IF b THEN "true" ELSE "false">>]
-Ls(l) == [t |-> "list", v |-> l]
-Mp(m) == [t |-> "map", v |-> FlattenSeq(m)]
+S(s) == [t |-> "str", v |-> <<s>>, sp |-> ""]
+N(n) == [t |-> "num", v |-> <<ToString(n)>>, sp |-> ""]
+B(b) == [t |-> "bool", v |-> <<IF b THEN "true" ELSE "false">>, sp |-> ""]
+Ls(l) == [t |-> "list", v |-> l, sp |-> ""]
+Mp(m) == [t |-> "map", v |-> FlattenSeq(m), sp |-> ""]
+(* a string written as a template (the harness knows the text of each spelling): its meaning is still the string *)
+Tm(sp, meaning) == [t |-> "str", v |-> <<meaning>>, sp |-> sp]
+Plain(val) == [t |-> val.t, v |-> val.v]
 Attr(n, v) == [k |-> "attr", name |-> n, val |-> v]
 Blk(t, labels, body) == [k |-> "block", type |-> t, labels |-> labels, body |-> body]
 DynOf(t, each) == [k |-> "dyn", type |-> t, each |-> each]
@@ -40,7 +43,7 @@ BlockTypes(items) == {items[i].type : i \in {j \in 1..Len(items) : items[j].k = 
 RECURSIVE BodyMeaning(_)
 BodyMeaning(items) ==
   LET its == Expand(items)
-      attrs == {<<its[i].name, its[i].val>> : i \in {j \in 1..Len(its) : its[j].k = "attr"}}
+      attrs == {<<its[i].name, Plain(its[i].val)>> : i \in {j \in 1..Len(its) : its[j].k = "attr"}}
       blocksOf(t) == SelectSeq(its, LAMBDA x : x.k = "block" /\ x.type = t)
   IN [attrs |-> attrs,
       blocks |-> [t \in BlockTypes(its) |-> LET bs == blocksOf(t) IN [i \in 1..Len(bs) |-> [labels |-> bs[i].labels, body |-> BodyMeaning(bs[i].body)]]]]
